@@ -72,6 +72,21 @@ SITES = {
     "for_update_of": lambda Q, N: Q.from_(T()).select("a").for_update(of=(N,)),
     "cte": lambda Q, N: Q.with_(Query.from_(U()).select("a"), N).from_(AliasedQuery(N)).select(AliasedQuery(N).a),
     "ddl_column": lambda Q, N: Query.create_table("t").columns(Column(N, "INT"), "b").unique(N).primary_key(N),
+    # an earlier declared column that differs from the constraint's column only by letter case
+    "ddl_constraint_case": lambda Q, N: (Query.create_table("t").columns(Column(N.swapcase(), "INT"), Column(N, "INT")).unique(N).primary_key(N)
+                                         if N.swapcase() != N else None),
+    "ddl_constraint_case_late": lambda Q, N: (Query.create_table("t").columns(Column(N, "INT")).columns(Column(N.swapcase(), "INT")).unique(N.swapcase())
+                                              if N.swapcase() != N else None),
+    "update_from_subquery_alias": lambda Q, N: (lambda s: Q.update(T()).from_(s).set(T().a, s.x).where(T().id == s.id))(
+        Q.from_(U()).select("id", "x").as_(N)),
+    "update_join_subquery_alias": lambda Q, N: (lambda s: Q.update(T()).join(s).on(T().id == s.id).set(T().a, s.x))(
+        Q.from_(U()).select("id", "x").as_(N)),
+    "update_from_setop_alias": lambda Q, N: (lambda s: Q.update(T()).from_(s).set(T().a, s.x).where(T().id == s.x))(
+        Q.from_(U()).select("x").union(Q.from_(T()).select("x")).as_(N)),
+    "join_subquery_alias": lambda Q, N: (lambda s: Q.from_(T()).join(s).on(T().id == s.id).select(s.x))(Q.from_(U()).select("id", "x").as_(N)),
+    "delete_where_subquery_alias": lambda Q, N: (lambda s: Q.from_(T()).delete().where(T().id.isin(Q.from_(s).select(s.id))))(
+        Q.from_(U()).select("id").as_(N)),
+    "insert_select_subquery_alias": lambda Q, N: (lambda s: Q.into(T()).columns("a").from_(s).select(s.x))(Q.from_(U()).select("x").as_(N)),
     "ddl_period": lambda Q, N: Query.create_table("t").columns("a", "b").period_for(N, "a", "b"),
     "ddl_period_cols": lambda Q, N: Query.create_table("t").columns(N, "b").period_for("p", N, "b"),
     "setop_order_alias": lambda Q, N: Q.from_(T()).select(T().a.as_(N)).union(Q.from_(U()).select(U().a.as_(N))).orderby(T().a.as_(N)),
@@ -79,6 +94,9 @@ SITES = {
     "pg_distinct_on": lambda Q, N: Q.from_(T()).distinct_on(N).select("a") if Q.__name__ == "PostgreSQLQuery" else None,
     "mysql_upsert_alias": lambda Q, N: Q.into(T()).insert(1).as_(N).on_conflict().do_update("a") if Q.__name__ == "MySQLQuery" else None,
 }
+
+
+EXPECT_COUNTS = {"ddl_constraint_case": (3, 1), "ddl_constraint_case_late": (1, 2)}
 
 
 def render(o, Q):
@@ -156,6 +174,13 @@ def run_case(case):
         return res
     n_ids = 0
     for t, (bk, bv, bq) in zip(toks, bt):
+        if bk == "ID" and bv == BENIGN.swapcase():
+            # the case variant declared next to the name (ddl_constraint_case): must stay exactly that
+            if t.kind != "ID" or t.value != N.swapcase():
+                res.violate(sigbase + ("" if quote_in_name else "|wrong-name"), "identifier token does not denote the supplied name "
+                            "(expected the case variant %r)" % N.swapcase(), dialect=d, site=site, name=N, sql=sql, token=t.text)
+                return res
+            continue
         if (bk in ("ID", "WORD")) and (bv == BENIGN or bv == BENIGN.upper()):
             n_ids += 1
             if bk == "WORD":
@@ -177,9 +202,25 @@ def run_case(case):
                 return res
     if n_ids == 0:
         res.violate("C07|%s|%s|name-not-emitted" % (site, d), "the benign name does not appear as a token at all", dialect=d, site=site, sql=bsql)
+    # absolute expectations (the rendering with the benign name comes from the same library and cannot vouch for these)
+    if site in EXPECT_COUNTS and N.swapcase() != N:
+        want = EXPECT_COUNTS[site]
+        got = (sum(1 for t in toks if t.kind == "ID" and t.value == N), sum(1 for t in toks if t.kind == "ID" and t.value == N.swapcase()))
+        if got != want:
+            res.violate("C07|%s|wrong-column" % site, "the constraint names another column than the one supplied (occurrences of the name / of "
+                        "its case variant: %s, expected %s)" % (got, want), dialect=d, site=site, name=N, sql=sql)
+    if "alias" in site and site != "mysql_upsert_alias":
+        # an alias that qualifies a column must be defined in the statement (a defining occurrence is not followed by '.')
+        quals = sum(1 for i, t in enumerate(toks) if t.kind == "ID" and t.value == N and i + 1 < len(toks) and toks[i + 1].text == ".")
+        defs = sum(1 for i, t in enumerate(toks) if t.kind == "ID" and t.value == N and not (i + 1 < len(toks) and toks[i + 1].text == "."))
+        if quals and not defs and N not in ("t", "u", "a", "x", "id", "b"):
+            res.violate("C07|%s|%s|alias-not-defined" % (site, d), "the alias qualifies a column but is defined nowhere in the statement",
+                        dialect=d, site=site, name=N, sql=sql)
     # SQLite: the statement runs against a schema carrying that exact name
     if d == "sqlite" and site in ("table_from", "column_select", "table_alias", "term_alias", "alias_ref_group_order", "subquery_alias",
-                                  "column_where", "table_join", "column_insert", "cte") and "\0" not in N:
+                                  "column_where", "table_join", "column_insert", "cte", "update_from_subquery_alias",
+                                  "join_subquery_alias", "delete_where_subquery_alias",
+                                  "insert_select_subquery_alias") and "\0" not in N:
         global _db
         db = sqlite3.connect(":memory:")
         qn = '"' + N.replace('"', '""') + '"'
@@ -190,8 +231,8 @@ def run_case(case):
             elif site in ("column_select", "column_where", "column_insert"):
                 db.execute("CREATE TABLE t (%s, zz1, %s)" % (qn, "zz2" if N.lower() == "b" else "b"))
             else:
-                db.execute("CREATE TABLE t (id, a, b)")
-                db.execute("CREATE TABLE u (id, a, b)")
+                db.execute("CREATE TABLE t (id, a, b, x)")
+                db.execute("CREATE TABLE u (id, a, b, x)")
             cur = db.execute(sql)
             if site in ("term_alias",) and cur.description[0][0] != N:
                 res.violate("C07|%s|sqlite|engine-alias" % site, "the engine reports another column name than the alias supplied",
